@@ -2372,4 +2372,341 @@ theorem execute_requestError (memo : Bool) (S : Schema) (D : Document) (fuel fue
       cases hss : Spec.executeSelectionSet S D fuel' o op.sels root [] <;> simp [hss] at hs
 
 
+/-! ### response keys -/
+
+/-- The key the executor writes into the result-map slot of a group: the response key, or the blank
+    key of the untouched pre-sized slot when the group's field is not defined on the object type. -/
+def slotKey (o : ObjT) (p : String × List FieldNode) : String :=
+  match p.2.head? with
+  | none => p.1
+  | some f0 => if f0.name == "__typename" then p.1 else if (o.getField f0.name).isSome then p.1 else ""
+
+theorem execItemsWith_keys (o : ObjT) (path : Path) (field : List FieldNode → FieldNode → FieldDef → Path → Cache → Out)
+    (g : Grouped) (acc : List (String × Json)) (errs : List Err) (c : Cache) (j : Json)
+    (h : (execItemsWith o path field g acc errs c).r = .ok j) :
+    ∃ kvs, j = .obj (acc ++ kvs) ∧ kvs.map (·.1) = g.map (slotKey o) := by
+  induction g generalizing acc errs c with
+  | nil =>
+    simp only [execItemsWith, R.ok.injEq] at h
+    exact ⟨[], by simp [h], rfl⟩
+  | cons p rest ih =>
+    obtain ⟨key, fields⟩ := p
+    simp only [execItemsWith] at h
+    cases hh : fields.head? with
+    | none => simp [hh] at h
+    | some f0 =>
+      simp only [hh] at h
+      by_cases htn : (f0.name == "__typename") = true
+      · simp only [htn, if_true] at h
+        obtain ⟨kvs, h1, h2⟩ := ih _ _ _ h
+        exact ⟨(key, .str o.name) :: kvs, by simp [h1], by simp [h2, slotKey, hh, htn]⟩
+      · simp only [htn, Bool.false_eq_true, if_false] at h
+        cases hfd : o.getField f0.name with
+        | none =>
+          simp only [hfd] at h
+          obtain ⟨kvs, h1, h2⟩ := ih _ _ _ h
+          exact ⟨("", .null) :: kvs, by simp [h1], by simp [h2, slotKey, hh, htn, hfd]⟩
+        | some fd =>
+          simp only [hfd] at h
+          cases hr : (catchIfNullable fd.type (field fields f0 fd (path ++ [.key key]) c)).r with
+          | ok j0 =>
+            simp only [hr] at h
+            obtain ⟨kvs, h1, h2⟩ := ih _ _ _ h
+            exact ⟨(key, j0) :: kvs, by simp [h1], by simp [h2, slotKey, hh, htn, hfd]⟩
+          | err e => simp [hr] at h
+          | stuck st => simp [hr] at h
+
+/-- keep the first occurrence of every key -/
+def firstOccurrences (ks : List String) : List String :=
+  ks.foldl (fun acc k => if k ∈ acc then acc else acc ++ [k]) []
+
+theorem foldl_appendNode_keys (fs : List FieldNode) (g : Grouped) :
+    (fs.foldl appendNode g).keys =
+      (fs.map FieldNode.responseKey).foldl (fun acc k => if k ∈ acc then acc else acc ++ [k]) g.keys := by
+  induction fs generalizing g with
+  | nil => rfl
+  | cons f rest ih =>
+    simp only [List.foldl_cons, List.map_cons]
+    rw [ih]
+    by_cases hm : f.responseKey ∈ g.keys
+    · simp only [appendNode, append_keys_of_mem g _ f hm, hm, if_true]
+    · simp only [appendNode, append_keys_of_not_mem g _ f hm, hm, if_false]
+
+/-- **Response keys of a grouped field set are the response keys of the expanded field sequence in
+    order of first occurrence.** -/
+theorem groupInOrder_keys (fs : List FieldNode) :
+    (groupInOrder fs).keys = firstOccurrences (fs.map FieldNode.responseKey) := by
+  simpa [groupInOrder, firstOccurrences] using foldl_appendNode_keys fs []
+
+/-- invariant of grouping: every group holds exactly the fields with its key, in order -/
+def GroupsExact (pre : List FieldNode) (g : Grouped) : Prop :=
+  g.keys.Nodup ∧ (∀ p ∈ g, p.2 = pre.filter (fun f => f.responseKey == p.1)) ∧ (∀ f ∈ pre, f.responseKey ∈ g.keys)
+
+theorem mem_append_cases (g : Grouped) (k : String) (f : FieldNode) (p : String × List FieldNode)
+    (hnd : g.keys.Nodup) (h : p ∈ g.append k f) :
+    (p ∈ g ∧ p.1 ≠ k) ∨ (∃ fs, (k, fs) ∈ g ∧ p = (k, fs ++ [f])) ∨ (k ∉ g.keys ∧ p = (k, [f])) := by
+  induction g with
+  | nil =>
+    simp only [Grouped.append, List.mem_singleton] at h
+    exact Or.inr (Or.inr ⟨by simp, h⟩)
+  | cons q rest ih =>
+    obtain ⟨k1, fs1⟩ := q
+    have hnd' : (Grouped.keys rest).Nodup := (List.nodup_cons.mp hnd).2
+    have hk1 : k1 ∉ Grouped.keys rest := (List.nodup_cons.mp hnd).1
+    by_cases hk : k1 = k
+    · rw [append_cons_eq _ _ _ _ _ hk] at h
+      subst hk
+      rcases List.mem_cons.mp h with h | h
+      · exact Or.inr (Or.inl ⟨fs1, List.mem_cons_self .., h⟩)
+      · have hp : p.1 ≠ k1 := by
+          intro e
+          apply hk1
+          rw [← e]
+          exact List.mem_map_of_mem (f := (·.1)) h
+        exact Or.inl ⟨List.mem_cons_of_mem _ h, hp⟩
+    · rw [append_cons_ne _ _ _ _ _ hk] at h
+      rcases List.mem_cons.mp h with h | h
+      · subst h
+        exact Or.inl ⟨List.mem_cons_self .., hk⟩
+      · rcases ih hnd' h with ⟨h1, h2⟩ | ⟨fs, h1, h2⟩ | ⟨h1, h2⟩
+        · exact Or.inl ⟨List.mem_cons_of_mem _ h1, h2⟩
+        · exact Or.inr (Or.inl ⟨fs, List.mem_cons_of_mem _ h1, h2⟩)
+        · refine Or.inr (Or.inr ⟨?_, h2⟩)
+          intro hm
+          rcases List.mem_cons.mp hm with hm | hm
+          · exact hk hm.symm
+          · exact h1 hm
+
+theorem groupsExact_append (pre : List FieldNode) (g : Grouped) (f : FieldNode) (h : GroupsExact pre g) :
+    GroupsExact (pre ++ [f]) (g.append f.responseKey f) := by
+  obtain ⟨hnd, hex, hcov⟩ := h
+  refine ⟨append_keys_nodup g _ f hnd, ?_, ?_⟩
+  · intro p hp
+    rcases mem_append_cases g _ f p hnd hp with ⟨h1, h2⟩ | ⟨fs, h1, h2⟩ | ⟨h1, h2⟩
+    · have hne : (f.responseKey == p.1) = false := by
+        simp only [beq_eq_false_iff_ne, ne_eq]
+        exact fun e => h2 e.symm
+      simp [List.filter_append, List.filter_cons, hne, hex p h1]
+    · subst h2
+      have := hex _ h1
+      simp only at this
+      simp [List.filter_append, List.filter_cons, this]
+    · subst h2
+      have hnone : pre.filter (fun x => x.responseKey == f.responseKey) = [] := by
+        rw [List.filter_eq_nil_iff]
+        intro x hx hkx
+        apply h1
+        have := hcov x hx
+        simp only [beq_iff_eq] at hkx
+        rw [← hkx]; exact this
+      simp [List.filter_append, List.filter_cons, hnone]
+  · intro x hx
+    rcases List.mem_append.mp hx with hx | hx
+    · have := hcov x hx
+      by_cases hm : f.responseKey ∈ g.keys
+      · rw [append_keys_of_mem g _ f hm]; exact this
+      · rw [append_keys_of_not_mem g _ f hm]; exact List.mem_append_left _ this
+    · simp only [List.mem_singleton] at hx
+      subst hx
+      by_cases hm : x.responseKey ∈ g.keys
+      · rw [append_keys_of_mem g _ x hm]; exact hm
+      · rw [append_keys_of_not_mem g _ x hm]; simp
+
+theorem groupsExact_foldl (fs pre : List FieldNode) (g : Grouped) (h : GroupsExact pre g) :
+    GroupsExact (pre ++ fs) (fs.foldl appendNode g) := by
+  induction fs generalizing pre g with
+  | nil => simpa using h
+  | cons f rest ih =>
+    have := ih (pre ++ [f]) _ (groupsExact_append pre g f h)
+    simpa [List.append_assoc] using this
+
+/-- **Field merging**: the group of a response key holds exactly the expanded fields with that key,
+    in document order. -/
+theorem groupInOrder_exact (fs : List FieldNode) (p : String × List FieldNode) (hp : p ∈ groupInOrder fs) :
+    p.2 = fs.filter (fun f => f.responseKey == p.1) := by
+  have := groupsExact_foldl fs [] [] ⟨by simp, by simp, by simp⟩
+  simp only [List.nil_append] at this
+  exact this.2.1 p hp
+
+
+theorem execSelections_keys (memo : Bool) (S : Schema) (D : Document) (P : Selection → Prop) (hP : NodeSet D P)
+    (fuel : Nat) (o : ObjT) (sels : List Selection) (v : RVal) (path : Path) (c : Cache) (j : Json)
+    (hc : CacheOK S D P c) (ho : S.object? o.name = some o) (hsels : ∀ s ∈ sels, P s)
+    (h : (execSelections memo S D fuel o sels v path c).r = .ok j) :
+    ∃ fuel0 fs vis kvs, expand S D o fuel0 sels [] = .ok (fs, vis) ∧ j = .obj kvs ∧
+      kvs.map (·.1) = (groupInOrder fs).map (slotKey o) := by
+  cases fuel with
+  | zero => simp [execSelections] at h
+  | succ fuel =>
+    simp only [execSelections] at h
+    cases hcm : collectFields memo S D fuel o sels c with
+    | error st => simp [hcm] at h
+    | ok gc =>
+      obtain ⟨g', c'⟩ := gc
+      simp only [hcm] at h
+      obtain ⟨_, fuel0, fs, v0, he, hg'⟩ := collectFields_inv memo S D P hP fuel o sels c g' c' hc ho hsels hcm
+      obtain ⟨kvs, h1, h2⟩ := execItemsWith_keys o path _ g' [] [] c' j h
+      exact ⟨fuel0, fs, v0, kvs, he, by simpa using h1, by rw [h2, hg']⟩
+
+theorem slotKey_ne (o : ObjT) (p : String × List FieldNode) (h : slotKey o p ≠ p.1) :
+    ∃ f0, p.2.head? = some f0 ∧ f0.name ≠ "__typename" ∧ o.getField f0.name = none ∧ slotKey o p = "" := by
+  unfold slotKey at h ⊢
+  cases hh : p.2.head? with
+  | none => simp [hh] at h
+  | some f0 =>
+    simp only [hh] at h ⊢
+    by_cases htn : (f0.name == "__typename") = true
+    · simp [htn] at h
+    · simp only [htn, Bool.false_eq_true, if_false] at h ⊢
+      cases hfd : o.getField f0.name with
+      | some fd => simp [hfd] at h
+      | none =>
+        refine ⟨f0, rfl, ?_, hfd, by simp⟩
+        simpa using htn
+
+/-! ### the selection nodes of a document -/
+
+mutual
+  /-- a selection node and all selection nodes beneath it -/
+  def Selection.nodes : Selection → List Selection
+    | .field pos alias name wkey ae dirs sub => .field pos alias name wkey ae dirs sub :: nodesList sub
+    | .spread pos name dirs => [.spread pos name dirs]
+    | .inline pos tc dirs sub => .inline pos tc dirs sub :: nodesList sub
+  def nodesList : List Selection → List Selection
+    | [] => []
+    | s :: rest => s.nodes ++ nodesList rest
+end
+
+/-- every selection node of the document (operations and fragment definitions) -/
+def Document.nodes (D : Document) : List Selection :=
+  D.ops.flatMap (fun op => nodesList op.sels) ++ D.frags.flatMap (fun f => nodesList f.sels)
+
+theorem self_mem_nodes (s : Selection) : s ∈ s.nodes := by
+  cases s <;> simp [Selection.nodes]
+
+theorem mem_nodesList_of_mem (l : List Selection) (s : Selection) (h : s ∈ l) : s ∈ nodesList l := by
+  induction l with
+  | nil => simp at h
+  | cons x rest ih =>
+    simp only [nodesList, List.mem_append]
+    rcases List.mem_cons.mp h with rfl | h
+    · exact Or.inl (self_mem_nodes _)
+    · exact Or.inr (ih h)
+
+mutual
+  theorem sub_mem_of_mem_nodes (s : Selection) :
+      (∀ pos alias name wkey ae dirs sub, Selection.field pos alias name wkey ae dirs sub ∈ s.nodes → ∀ x ∈ sub, x ∈ s.nodes) ∧
+      (∀ pos tc dirs sub, Selection.inline pos tc dirs sub ∈ s.nodes → ∀ x ∈ sub, x ∈ s.nodes) := by
+    cases s with
+    | field p a n w ae d sub0 =>
+      have ih := sub_mem_of_mem_nodesList sub0
+      constructor
+      · intro pos alias name wkey ae' dirs sub h x hx
+        simp only [Selection.nodes, List.mem_cons] at h ⊢
+        rcases h with h | h
+        · simp only [Selection.field.injEq] at h
+          obtain ⟨_, _, _, _, _, _, rfl⟩ := h
+          exact Or.inr (mem_nodesList_of_mem _ _ hx)
+        · exact Or.inr (ih.1 _ _ _ _ _ _ _ h x hx)
+      · intro pos tc dirs sub h x hx
+        simp only [Selection.nodes, List.mem_cons] at h ⊢
+        rcases h with h | h
+        · simp at h
+        · exact Or.inr (ih.2 _ _ _ _ h x hx)
+    | spread p n d =>
+      constructor
+      · intro pos alias name wkey ae' dirs sub h; simp [Selection.nodes] at h
+      · intro pos tc dirs sub h; simp [Selection.nodes] at h
+    | inline p tc0 d sub0 =>
+      have ih := sub_mem_of_mem_nodesList sub0
+      constructor
+      · intro pos alias name wkey ae' dirs sub h x hx
+        simp only [Selection.nodes, List.mem_cons] at h ⊢
+        rcases h with h | h
+        · simp at h
+        · exact Or.inr (ih.1 _ _ _ _ _ _ _ h x hx)
+      · intro pos tc dirs sub h x hx
+        simp only [Selection.nodes, List.mem_cons] at h ⊢
+        rcases h with h | h
+        · simp only [Selection.inline.injEq] at h
+          obtain ⟨_, _, _, rfl⟩ := h
+          exact Or.inr (mem_nodesList_of_mem _ _ hx)
+        · exact Or.inr (ih.2 _ _ _ _ h x hx)
+  theorem sub_mem_of_mem_nodesList (l : List Selection) :
+      (∀ pos alias name wkey ae dirs sub, Selection.field pos alias name wkey ae dirs sub ∈ nodesList l → ∀ x ∈ sub, x ∈ nodesList l) ∧
+      (∀ pos tc dirs sub, Selection.inline pos tc dirs sub ∈ nodesList l → ∀ x ∈ sub, x ∈ nodesList l) := by
+    cases l with
+    | nil =>
+      constructor
+      · intro pos alias name wkey ae dirs sub h; simp [nodesList] at h
+      · intro pos tc dirs sub h; simp [nodesList] at h
+    | cons s rest =>
+      have ih1 := sub_mem_of_mem_nodes s
+      have ih2 := sub_mem_of_mem_nodesList rest
+      constructor
+      · intro pos alias name wkey ae dirs sub h x hx
+        simp only [nodesList, List.mem_append] at h ⊢
+        rcases h with h | h
+        · exact Or.inl (ih1.1 _ _ _ _ _ _ _ h x hx)
+        · exact Or.inr (ih2.1 _ _ _ _ _ _ _ h x hx)
+      · intro pos tc dirs sub h x hx
+        simp only [nodesList, List.mem_append] at h ⊢
+        rcases h with h | h
+        · exact Or.inl (ih1.2 _ _ _ _ h x hx)
+        · exact Or.inr (ih2.2 _ _ _ _ h x hx)
+end
+
+
+theorem eq_of_nodup_map {α β : Type} (f : α → β) (l : List α) (h : (l.map f).Nodup) (a b : α) (ha : a ∈ l) (hb : b ∈ l)
+    (e : f a = f b) : a = b := by
+  induction l with
+  | nil => simp at ha
+  | cons x rest ih =>
+    simp only [List.map_cons, List.nodup_cons] at h
+    rcases List.mem_cons.mp ha with ha | ha
+    · rcases List.mem_cons.mp hb with hb | hb
+      · rw [ha, hb]
+      · exfalso; apply h.1
+        rw [← ha, e]
+        exact List.mem_map_of_mem (f := f) hb
+    · rcases List.mem_cons.mp hb with hb | hb
+      · exfalso; apply h.1
+        rw [← hb, ← e]
+        exact List.mem_map_of_mem (f := f) ha
+      · exact ih h.2 ha hb
+
+theorem mem_nodes_cases (D : Document) (x : Selection) (h : x ∈ D.nodes) :
+    ∃ l, (∀ y ∈ nodesList l, y ∈ D.nodes) ∧ x ∈ nodesList l := by
+  simp only [Document.nodes, List.mem_append, List.mem_flatMap] at h
+  rcases h with ⟨op, hop, hx⟩ | ⟨fr, hfr, hx⟩
+  · refine ⟨op.sels, ?_, hx⟩
+    intro y hy
+    simp only [Document.nodes, List.mem_append, List.mem_flatMap]
+    exact Or.inl ⟨op, hop, hy⟩
+  · refine ⟨fr.sels, ?_, hx⟩
+    intro y hy
+    simp only [Document.nodes, List.mem_append, List.mem_flatMap]
+    exact Or.inr ⟨fr, hfr, hy⟩
+
+/-- A document whose selection nodes have pairwise distinct positions (what the parser produces:
+    C06) provides the node set the memo's soundness needs. -/
+theorem nodeSet_of_distinct_positions (D : Document) (h : (D.nodes.map Selection.pos).Nodup) :
+    NodeSet D (· ∈ D.nodes) ∧ ∀ op ∈ D.ops, ∀ s ∈ op.sels, s ∈ D.nodes := by
+  refine ⟨⟨?_, ?_, ?_, ?_⟩, ?_⟩
+  · intro pos alias name wkey ae dirs sub hm x hx
+    obtain ⟨l, hl, hm'⟩ := mem_nodes_cases D _ hm
+    exact hl x ((sub_mem_of_mem_nodesList l).1 _ _ _ _ _ _ _ hm' x hx)
+  · intro pos tc dirs sub hm x hx
+    obtain ⟨l, hl, hm'⟩ := mem_nodes_cases D _ hm
+    exact hl x ((sub_mem_of_mem_nodesList l).2 _ _ _ _ hm' x hx)
+  · intro fr hfr x hx
+    simp only [Document.nodes, List.mem_append, List.mem_flatMap]
+    exact Or.inr ⟨fr, hfr, mem_nodesList_of_mem _ _ hx⟩
+  · intro s1 s2 h1 h2 e
+    exact eq_of_nodup_map Selection.pos D.nodes h s1 s2 h1 h2 e
+  · intro op hop x hx
+    simp only [Document.nodes, List.mem_append, List.mem_flatMap]
+    exact Or.inl ⟨op, hop, mem_nodesList_of_mem _ _ hx⟩
+
+
 end ApiFu.C01
